@@ -99,7 +99,7 @@ def main():
             na.append({"property_id": pid, "reason": NA.get(pid, PENDING)})
     m = {
         "version": 1,
-        "setup_cmd": "cd /verif/driver && CARGO_NET_OFFLINE=true cargo build --release --offline && cd /verif && python3 rules/facts.py default+bzip2",
+        "setup_cmd": "cd /verif/driver && CARGO_NET_OFFLINE=true cargo build --release --offline && cd /verif && python3 rules/facts.py default+bzip2 default",
         "hooks": {
             "guard": "rpm_rs_rpm_verif",
             "enable": "RUSTFLAGS=--cfg rpm_rs_rpm_verif (set by rules/facts.py when it runs the driver; no source in /repo is guarded by it - the analysis needs no instrumentation)",
